@@ -93,7 +93,8 @@ Lemma core_auto_error latex ex c v e :
   (1 <= c_n c <= 13)%Z -> uses_error (c_mode c) = true -> 0 < e ->
   exists o, core ord rd latex ex c v e = Some o /\
             o_bare o = false /\ o_exp o = expo ex /\ o_latex o = latex /\
-            good_pair (c_n c) true v e o.
+            good_pair (c_n c) true v e o /\
+            Qabs (out_error o - e) <= (1 # 2) * pow10 (ord e - c_n c + 1).
 Proof.
   intros [Hn Hn13] Hm He. destruct Hrd as (Hrv & Hre & Hfv & Hfe).
   assert (Hez : ~ e == 0) by (intro E; rewrite E in He; discriminate He).
@@ -120,10 +121,19 @@ Proof.
   replace (Z.max 0 (- (oe + cb - k) + n - 1)) with d by (unfold d, p; lia).
   eexists. split; [reflexivity|].
   cbn [o_bare o_exp o_latex]. split; [reflexivity|]. split; [reflexivity|]. split; [reflexivity|].
+  cut (good_pair n true v e
+         {| o_sci := match ex with None => false | Some _ => true end; o_latex := latex;
+            o_val := f_val rd (conv ex Rv * pow10 d); o_err := f_err rd (conv ex Re * pow10 d);
+            o_bare := false; o_dec := d; o_exp := expo ex |} /\
+       inject_Z (f_err rd (conv ex Re * pow10 d)) / pow10 d * pow10 (expo ex) == Re).
+  { intros [G Ee]. split; [exact G|]. unfold out_error. cbn [o_err o_dec o_exp]. rewrite Ee.
+    pose proof (ref_close (r_err rd) Hre e oe n k) as RC. fold B Re cb p in RC.
+    replace (p - cb)%Z with (oe - n + 1)%Z in RC by (unfold p; lia). exact RC. }
   (* what is printed *)
   assert (Eerr : inject_Z (f_err rd (conv ex Re * pow10 d)) / pow10 d * pow10 k == Re).
   { apply (ref_printed (r_err rd) (f_err rd) Hre Hfe e oe n Hn Lo Hi k). fold B Re cb p d. rewrite Ece. reflexivity. }
   destruct (Rref_bounds (r_err rd) Hre e oe n Hn Lo Hi) as [RL RU]. fold B Re cb in RL, RU.
+  split; [|exact Eerr].
   unfold good_pair, out_error, out_value. cbn [o_val o_err o_dec o_exp]. fold k.
   set (E := inject_Z (f_err rd (conv ex Re * pow10 d)) / pow10 d * pow10 k) in *.
   assert (Eord : ord E = (oe + cb)%Z) by (apply ord_unique; rewrite Eerr; assumption).
@@ -146,7 +156,8 @@ Lemma core_value latex ex c v e :
   exists o, core ord rd latex ex c v e = Some o /\
             o_bare o = is_zero e /\ (is_zero e = true -> o_err o = 0%Z) /\
             o_exp o = expo ex /\ o_latex o = latex /\
-            good_pair (c_n c) false v e o.
+            good_pair (c_n c) false v e o /\
+            Qabs (out_value o - v) <= (1 # 2) * pow10 (ord v - c_n c + 1).
 Proof.
   intros [Hn Hn13] Hm Hvz He. destruct Hrd as (Hrv & Hre & Hfv & Hfe).
   destruct (Hord v Hvz) as [Lo Hi].
@@ -172,9 +183,19 @@ Proof.
   eexists. split; [reflexivity|].
   cbn [o_bare o_exp o_latex o_err]. split; [reflexivity|].
   split; [intros ->; reflexivity|]. split; [reflexivity|]. split; [reflexivity|].
+  cut (good_pair n false v e
+         {| o_sci := match ex with None => false | Some _ => true end; o_latex := latex;
+            o_val := f_val rd (conv ex Rv * pow10 d);
+            o_err := if is_zero e then 0%Z else f_err rd (conv ex Re * pow10 d);
+            o_bare := is_zero e; o_dec := d; o_exp := expo ex |} /\
+       inject_Z (f_val rd (conv ex Rv * pow10 d)) / pow10 d * pow10 (expo ex) == Rv).
+  { intros [G Ee]. split; [exact G|]. unfold out_value. cbn [o_val o_dec o_exp]. rewrite Ee.
+    pose proof (ref_close (r_val rd) Hrv v ov n k) as RC. fold B Rv cb p in RC.
+    replace (p - cb)%Z with (ov - n + 1)%Z in RC by (unfold p; lia). exact RC. }
   assert (Eval : inject_Z (f_val rd (conv ex Rv * pow10 d)) / pow10 d * pow10 k == Rv).
   { apply (ref_printed (r_val rd) (f_val rd) Hrv Hfv v ov n Hn Lo Hi k). fold B Rv cb p d. rewrite Ecv. reflexivity. }
   destruct (Rref_bounds (r_val rd) Hrv v ov n Hn Lo Hi) as [RL RU]. fold B Rv cb in RL, RU.
+  split; [|exact Eval].
   unfold good_pair, out_error, out_value. cbn [o_val o_err o_dec o_exp]. fold k.
   set (V := inject_Z (f_val rd (conv ex Rv * pow10 d)) / pow10 d * pow10 k) in *.
   assert (Eord : ord V = (ov + cb)%Z) by (apply ord_unique; rewrite Eval; assumption).
@@ -336,16 +357,17 @@ Theorem auto_error_lemma s c v e :
     o_dec o = Z.max 0 (o_exp o - p) /\
     (exists j : Z, E == inject_Z j * pow10 p) /\
     Qabs (out_value o - v) <= ((1 # 2) + (1 # 20)) * pow10 p /\
-    Qabs (out_error o - e) <= ((1 # 2) + (1 # 20)) * pow10 p.
+    Qabs (out_error o - e) <= ((1 # 2) + (1 # 20)) * pow10 p /\
+    Qabs (out_error o - e) <= (1 # 2) * pow10 (ord e - c_n c + 1).
 Proof.
   intros Hn Hm He.
   assert (Hez : ~ e == 0) by (intro E; rewrite E in He; discriminate He).
   assert (Hu : uses_error (c_mode c) = true) by (destruct (c_mode c); [reflexivity|contradiction|reflexivity]).
   pose proof (nz_pair_r v e Hez) as Hz.
   destruct (printer_core s c v e Hz) as (ex & Ep & _).
-  destruct (core_auto_error (style_latex s) ex c v e Hn Hu He) as (o & Ho & Hb & _ & _ & G).
+  destruct (core_auto_error (style_latex s) ex c v e Hn Hu He) as (o & Ho & Hb & _ & _ & G & G1).
   exists o. rewrite Ep. split; [exact Ho|]. split; [apply (printer_shape s c v e o Hz); rewrite Ep; exact Ho|].
-  split; [exact Hb|exact G].
+  split; [exact Hb|]. destruct G as (g1 & g2 & g3 & g4 & g5). repeat split; assumption.
 Qed.
 
 Theorem value_mode_lemma s c v e :
@@ -358,19 +380,20 @@ Theorem value_mode_lemma s c v e :
     o_dec o = Z.max 0 (o_exp o - p) /\
     (exists j : Z, V == inject_Z j * pow10 p) /\
     Qabs (out_value o - v) <= ((1 # 2) + (1 # 20)) * pow10 p /\
-    Qabs (out_error o - e) <= ((1 # 2) + (1 # 20)) * pow10 p.
+    Qabs (out_error o - e) <= ((1 # 2) + (1 # 20)) * pow10 p /\
+    Qabs (out_value o - v) <= (1 # 2) * pow10 (ord v - c_n c + 1).
 Proof.
   intros Hn Hm Hv He.
   assert (Hu : uses_error (c_mode c) = false) by (rewrite Hm; reflexivity).
   pose proof (nz_pair_l v e Hv) as Hz.
   destruct (printer_core s c v e Hz) as (ex & Ep & _).
-  destruct (core_value (style_latex s) ex c v e Hn Hu Hv He) as (o & Ho & Hb & Hb0 & _ & _ & G).
+  destruct (core_value (style_latex s) ex c v e Hn Hu Hv He) as (o & Ho & Hb & Hb0 & _ & _ & G & G1).
   exists o. rewrite Ep. split; [exact Ho|]. split; [apply (printer_shape s c v e o Hz); rewrite Ep; exact Ho|].
   split.
   { intro E0. apply is_zero_true in E0. rewrite Hb. split; [exact E0|apply Hb0; exact E0]. }
   split.
   { intro Hp. rewrite Hb. apply is_zero_false. intro E0. rewrite E0 in Hp. discriminate Hp. }
-  exact G.
+  destruct G as (g1 & g2 & g3 & g4 & g5). repeat split; assumption.
 Qed.
 
 Theorem zero_error_lemma s c v e :
@@ -383,7 +406,8 @@ Theorem zero_error_lemma s c v e :
           Qabs (out_value o - v) <= (1 # 2) * out_unit o) /\
        (c_mode c = ValueMode ->
           let p := (ord (out_value o) - c_n c + 1)%Z in
-          o_dec o = Z.max 0 (o_exp o - p) /\ Qabs (out_value o - v) <= ((1 # 2) + (1 # 20)) * pow10 p)).
+          o_dec o = Z.max 0 (o_exp o - p) /\ (exists j : Z, out_value o == inject_Z j * pow10 p) /\
+          Qabs (out_value o - v) <= (1 # 2) * pow10 (ord v - c_n c + 1))).
 Proof.
   intros Hn He. destruct (is_zero v) eqn:Zv.
   - (* 0 +/- 0 *)
@@ -402,14 +426,14 @@ Proof.
       split; [intros _; split; assumption|].
       intro M. rewrite M in Hu. discriminate Hu.
     + assert (He0 : 0 <= e) by (rewrite He; apply Qle_refl).
-      destruct (core_value (style_latex s) ex c v e Hn Hu Zv He0) as (o & Ho & Hb & Hb0 & _ & _ & G).
+      destruct (core_value (style_latex s) ex c v e Hn Hu Zv He0) as (o & Ho & Hb & Hb0 & _ & _ & G & G1).
       assert (Ze : is_zero e = true) by (apply is_zero_true; exact He).
       exists o. rewrite Ep. split; [exact Ho|]. split; [rewrite Hb; exact Ze|]. split; [apply Hb0; exact Ze|].
       split; [intro; contradiction|]. intros _.
       split; [apply (printer_shape s c v e o Hz); rewrite Ep; exact Ho|].
       split.
       * intro M. destruct (c_mode c); try contradiction; discriminate Hu.
-      * intros _. destruct G as (_ & Gd & _ & Gv & _). split; assumption.
+      * intros _. destruct G as (_ & Gd & Gm & _ & _). split; [exact Gd|]. split; [exact Gm|exact G1].
 Qed.
 
 Theorem zero_value_lemma s c v e :
